@@ -1,6 +1,17 @@
-"""Tiny evaluator over a *model* (finite sample values chosen by the checker) for guard and
-set-algebra expressions.  It interprets AST nodes itself; nothing of the analysed library is
-executed.  Unsupported constructs raise Unsupported (-> undecided)."""
+"""Finite-domain evaluation of GUARDS and SET ALGEBRA over opaque data (used by C04 / C09).
+
+What this is for -- and nothing else:
+  * truth of a branch condition on the COMPLETE finite domain of the things it tests: the three `ok` values of an otherwise
+    opaque result record, isinstance classes (number / array / str), order types of one number against the constants or
+    symbols it is compared with (a count against failable_evals, a value against +-inf, a percentage against 0, nan as the
+    unordered class), emptiness / length classes of opaque sequences;
+  * the Venn-region value of set-algebra expressions (union / difference / membership filters) over small symbolic
+    universes, and of the few straight-line statements that build such a set (the black-list of hidden variable names).
+
+It never interprets a function of the analysed library as a whole, never calls into it, and no result of a library
+computation (grade, message, string processing, numeric value) is produced here: leaves of decision paths are compared by
+their normal FORM in the property modules.  Unsupported constructs raise Unsupported (-> undecided, exit 2).
+"""
 import ast
 import operator
 
@@ -10,19 +21,17 @@ class Unsupported(Exception):
 
 
 class ArrayTruth(Exception):
-    """A model array was compared / used where real numpy would yield an array with no truth value."""
+    """An array-class operand reached a comparison whose result would be an array without a truth value."""
 
 
 class ArrayModel(object):
-    """Stands for a numpy array with more than one element (only its 'is it a number' answer is modelled)."""
+    """The isinstance class 'numpy array with several entries' (answers only: is it a Number? no)."""
 
     def __repr__(self):
         return '<array>'
 
 
 NUMBER_TYPES = {'Number', 'Real', 'Complex', 'float', 'int', 'complex'}
-
-
 CMP = {ast.Eq: operator.eq, ast.NotEq: operator.ne, ast.Lt: operator.lt, ast.LtE: operator.le, ast.Gt: operator.gt,
        ast.GtE: operator.ge, ast.Is: operator.is_, ast.IsNot: operator.is_not,
        ast.In: lambda a, b: a in b, ast.NotIn: lambda a, b: a not in b}
@@ -30,38 +39,23 @@ SET_METHODS = {'union', 'difference', 'intersection', 'symmetric_difference', 'c
 BIN = {ast.BitOr: operator.or_, ast.Sub: operator.sub, ast.BitAnd: operator.and_, ast.BitXor: operator.xor}
 
 
+def _is_num(v):
+    return isinstance(v, (int, float)) and not isinstance(v, bool)
+
+
 def ev(node, env):
     if isinstance(node, ast.Constant):
         return node.value
     if isinstance(node, (ast.Attribute, ast.Subscript)):
         key = ast.unparse(node)
-        if key in env:
+        if key in env:                      # e.g. "self.config['instructor_vars']" bound to a symbolic value by the caller
             return env[key]
-    if isinstance(node, ast.Dict):
-        if any(k is None for k in node.keys):
-            raise Unsupported('dict unpacking')
-        return {ev(k, env): ev(v, env) for k, v in zip(node.keys, node.values)}
-    if isinstance(node, ast.DictComp) and len(node.generators) == 1 and isinstance(node.generators[0].target, ast.Name):
-        g = node.generators[0]
-        out = {}
-        for item in ev(g.iter, env):
-            e2 = dict(env)
-            e2[g.target.id] = item
-            if all(ev(c, e2) for c in g.ifs):
-                out[ev(node.key, e2)] = ev(node.value, e2)
-        return out
     if isinstance(node, ast.Name):
         if node.id in env:
             return env[node.id]
         mod = env.get('__module__')
-        if mod is not None and len(mod.assigns.get(node.id, [])) == 1:
+        if mod is not None and len(mod.assigns.get(node.id, [])) == 1:      # module-level constant such as _INFINITY
             return ev(mod.assigns[node.id][0], {'__module__': mod})
-        # workaround for a rename slip of sa/normalize.py: inside a nested def of an inlined helper the uses of a
-        # parameter are renamed (`x_inl1`) while the parameter itself keeps its name (`x`)
-        import re as _re
-        m = _re.match(r'^(.*)_inl\d+$', node.id)
-        if m and m.group(1) in env:
-            return env[m.group(1)]
         raise Unsupported('name %s' % node.id)
     if isinstance(node, ast.Attribute) and node.attr in ('inf', 'infty', 'Inf', 'Infinity') and isinstance(node.value, ast.Name) \
             and node.value.id in ('np', 'numpy', 'math'):
@@ -69,12 +63,16 @@ def ev(node, env):
     if isinstance(node, (ast.List, ast.Tuple, ast.Set)):
         vals = [ev(e, env) for e in node.elts]
         return vals if isinstance(node, ast.List) else (tuple(vals) if isinstance(node, ast.Tuple) else set(vals))
+    if isinstance(node, ast.Dict):
+        if any(k is None for k in node.keys):
+            raise Unsupported('dict unpacking')
+        return {ev(k, env): ev(v, env) for k, v in zip(node.keys, node.values)}
     if isinstance(node, ast.Subscript):
         base = ev(node.value, env)
         if isinstance(node.slice, ast.Slice):
             sl = node.slice
             key = slice(*[None if p is None else ev(p, env) for p in (sl.lower, sl.upper, sl.step)])
-            if not isinstance(base, (list, tuple, str)):
+            if not isinstance(base, (list, tuple)):
                 raise Unsupported('slice of a non-sequence')
         else:
             key = ev(node.slice, env)
@@ -86,21 +84,14 @@ def ev(node, env):
         return not ev(node.operand, env)
     if isinstance(node, ast.UnaryOp) and isinstance(node.op, ast.USub):
         v = ev(node.operand, env)
-        if isinstance(v, (int, float)) and not isinstance(v, bool):
+        if _is_num(v):
             return -v
         raise Unsupported('negation')
     if isinstance(node, ast.BoolOp):
-        if isinstance(node.op, ast.And):
-            val = True
-            for v in node.values:
-                val = ev(v, env)
-                if not val:
-                    return val
-            return val
-        val = False
+        val = isinstance(node.op, ast.And)
         for v in node.values:
             val = ev(v, env)
-            if val:
+            if bool(val) != isinstance(node.op, ast.And):
                 return val
         return val
     if isinstance(node, ast.Compare):
@@ -115,156 +106,89 @@ def ev(node, env):
                 if not CMP[type(op)](left, right):
                     return False
             except TypeError:
-                raise Unsupported('comparison of incomparable model values')
+                raise Unsupported('comparison of incomparable classes')
             left = right
         return True
-    if isinstance(node, ast.BinOp) and isinstance(node.op, ast.Add):
+    if isinstance(node, ast.BinOp) and isinstance(node.op, (ast.Add, ast.Sub)):
         a, b = ev(node.left, env), ev(node.right, env)
-        if isinstance(a, list) and isinstance(b, list):
+        if isinstance(a, list) and isinstance(b, list) and isinstance(node.op, ast.Add):
             return a + b
-        if isinstance(a, str) and isinstance(b, str):
-            return a + b
-        if isinstance(a, (int, float)) and isinstance(b, (int, float)) and not isinstance(a, bool) and not isinstance(b, bool):
-            return a + b
-        raise Unsupported('addition of model values')
-    if isinstance(node, ast.BinOp) and isinstance(node.op, ast.Sub):
-        a, b = ev(node.left, env), ev(node.right, env)
-        if isinstance(a, (int, float)) and isinstance(b, (int, float)) and not isinstance(a, bool) and not isinstance(b, bool):
+        if _is_num(a) and _is_num(b):
+            return a + b if isinstance(node.op, ast.Add) else a - b        # counts / order-type representatives only
+        if isinstance(a, (set, frozenset)) and isinstance(b, (set, frozenset)) and isinstance(node.op, ast.Sub):
             return a - b
-        if not (isinstance(a, (set, frozenset)) and isinstance(b, (set, frozenset))):
-            raise Unsupported('subtraction of model values')
-        return a - b
+        raise Unsupported('arithmetic on symbolic data')
     if isinstance(node, ast.BinOp) and type(node.op) in BIN:
         a, b = ev(node.left, env), ev(node.right, env)
         if isinstance(a, (set, frozenset)) and isinstance(b, (set, frozenset)):
             return BIN[type(node.op)](a, b)
         raise Unsupported('binary operator on non-sets')
     if isinstance(node, ast.Call):
-        # model callables supplied by the checker (by local name or by dotted text)
-        target = None
-        if isinstance(node.func, ast.Name) and callable(env.get(node.func.id)):
-            target = env[node.func.id]
-        elif isinstance(node.func, ast.Attribute) and callable(env.get(ast.unparse(node.func))):
-            target = env[ast.unparse(node.func)]
-        if target is not None:
-            args, kw = _call_args(node, env)
-            return target(*args, **kw)
-        # unreviewed helper methods of the same class, interpreted on the model
-        if isinstance(node.func, ast.Attribute) and isinstance(node.func.value, ast.Name) and node.func.value.id == env.get('__self__') \
-                and node.func.attr in env.get('__methods__', {}):
-            fn = env['__methods__'][node.func.attr]
-            args, kw = _call_args(node, env)
-            static = any(ast.unparse(d) == 'staticmethod' for d in fn.decorator_list)
-            inner = {k: v for k, v in env.items() if k.startswith('__') or k.startswith(env['__self__'] + '.')}
-            return _apply(fn, ([] if static else [env.get(env['__self__'])]) + args, kw, inner)
-        if isinstance(node.func, ast.Name) and node.func.id in ('max', 'min') and node.func.id not in env:
-            args, kw = _call_args(node, env)
-            if set(kw) - {'key', 'default'}:
-                raise Unsupported('max/min keywords')
-            try:
-                return (max if node.func.id == 'max' else min)(*args, **kw)
-            except ValueError:
-                raise ModelRaise(cls='ValueError')
-            except TypeError:
-                raise ModelRaise(cls='TypeError')
-        if isinstance(node.func, ast.Name) and node.func.id in env.get('__funcs__', {}) and node.func.id not in env:
-            fn = env['__funcs__'][node.func.id]
-            if fn.decorator_list:
-                raise Unsupported('decorated function %s' % fn.name)
-            args, kw = _call_args(node, env)
-            return _apply(fn, args, kw, {k: v for k, v in env.items() if k.startswith('__')})
-        if isinstance(node.func, ast.Attribute) and node.func.attr in STR_METHODS:
-            recv = ev(node.func.value, env)
-            if isinstance(recv, str):
-                try:
-                    return getattr(recv, node.func.attr)(*[ev(x, env) for x in node.args],
-                                                           **{k.arg: ev(k.value, env) for k in node.keywords})
-                except (TypeError, ValueError, KeyError, IndexError) as e:
-                    raise ModelRaise(cls=type(e).__name__)
-        if isinstance(node.func, ast.Name) and node.func.id == 'isinstance' and len(node.args) == 2 and '__isinstance__' in env:
-            tn = [ast.unparse(t).split('.')[-1] for t in (node.args[1].elts if isinstance(node.args[1], ast.Tuple) else [node.args[1]])]
-            res = env['__isinstance__'](ev(node.args[0], env), tn)
-            if res is not None:
-                return res
-        if isinstance(node.func, ast.Name) and node.func.id in ('zip', 'enumerate', 'range', 'reversed', 'iter') \
-                and node.func.id not in env:
-            args = [ev(a, env) for a in node.args]
-            kw = {k.arg: ev(k.value, env) for k in node.keywords}
-            try:
-                if node.func.id == 'zip' and not kw:
-                    return list(zip(*args))
-                if node.func.id == 'enumerate' and set(kw) <= {'start'}:
-                    return list(enumerate(*args, **kw))
-                if node.func.id == 'range' and not kw:
-                    return list(range(*args))
-                if node.func.id in ('reversed', 'iter') and not kw and len(args) == 1:
-                    return list(reversed(args[0])) if node.func.id == 'reversed' else list(args[0])
-            except TypeError:
-                raise Unsupported(node.func.id)
-            raise Unsupported(node.func.id)
-        if isinstance(node.func, ast.Name) and node.func.id in ('set', 'list', 'frozenset', 'sorted', 'tuple') and not node.keywords:
+        f = node.func
+        name = f.id if isinstance(f, ast.Name) else None
+        if name in ('set', 'list', 'frozenset', 'sorted', 'tuple') and not node.keywords:
             if not node.args:
-                return {'set': set(), 'list': [], 'frozenset': frozenset(), 'sorted': [], 'tuple': ()}[node.func.id]
+                return {'set': set(), 'list': [], 'frozenset': frozenset(), 'sorted': [], 'tuple': ()}[name]
             v = ev(node.args[0], env)
             try:
-                return {'set': set, 'list': list, 'frozenset': frozenset, 'sorted': sorted, 'tuple': tuple}[node.func.id](v)
+                return {'set': set, 'list': list, 'frozenset': frozenset, 'sorted': sorted, 'tuple': tuple}[name](v)
             except TypeError:
                 raise Unsupported('conversion')
-        if isinstance(node.func, ast.Name) and node.func.id == 'float' and len(node.args) == 1 and not node.keywords:
-            v = ev(node.args[0], env)
-            try:
-                return float(v)
-            except ValueError:
-                raise ModelRaise(cls='ValueError')
-            except TypeError:
-                raise ModelRaise(cls='TypeError')
-        if isinstance(node.func, ast.Name) and node.func.id in ('any', 'all') and len(node.args) == 1 and not node.keywords:
+        if name == 'len' and len(node.args) == 1:
+            return len(ev(node.args[0], env))
+        if name == 'bool' and len(node.args) == 1:
+            return bool(ev(node.args[0], env))
+        if name == 'float' and len(node.args) == 1 and isinstance(node.args[0], ast.Constant) \
+                and str(node.args[0].value).strip('+-').lower() in ('inf', 'infinity'):
+            return float(node.args[0].value)               # the constants +-inf a value is compared with
+        if name in ('any', 'all') and len(node.args) == 1 and not node.keywords:
             vals = ev(node.args[0], env)
-            return any(vals) if node.func.id == 'any' else all(vals)
-        if isinstance(node.func, ast.Name) and node.func.id == 'abs' and len(node.args) == 1:
-            v = ev(node.args[0], env)
-            if isinstance(v, (int, float)) and not isinstance(v, bool):
-                return abs(v)
-            raise Unsupported('abs of a non-number')
-        if isinstance(node.func, (ast.Name, ast.Attribute)) and (node.func.id if isinstance(node.func, ast.Name) else node.func.attr) \
-                in ('isinf', 'isfinite', 'isnan') and len(node.args) == 1:
+            return any(vals) if name == 'any' else all(vals)
+        if (name or (f.attr if isinstance(f, ast.Attribute) else None)) in ('isinf', 'isfinite', 'isnan') and len(node.args) == 1:
             import math
             v = ev(node.args[0], env)
             if isinstance(v, ArrayModel):
                 raise ArrayTruth()
-            if isinstance(v, (int, float)) and not isinstance(v, bool):
-                return getattr(math, node.func.id if isinstance(node.func, ast.Name) else node.func.attr)(v)
+            if _is_num(v):
+                return getattr(math, name or f.attr)(v)
             raise Unsupported('isinf of a non-number')
-        if isinstance(node.func, ast.Name) and node.func.id == 'isinstance' and len(node.args) == 2:
+        if name == 'isinstance' and len(node.args) == 2:
             tnames = [ast.unparse(t).split('.')[-1] for t in (node.args[1].elts if isinstance(node.args[1], ast.Tuple) else [node.args[1]])]
+            v = ev(node.args[0], env)
             if all(t in NUMBER_TYPES | {'str'} for t in tnames):
-                v = ev(node.args[0], env)
                 isnum = isinstance(v, (int, float, complex)) and not isinstance(v, bool)
                 return (isnum and any(t in NUMBER_TYPES for t in tnames)) or (isinstance(v, str) and 'str' in tnames)
-        if isinstance(node.func, ast.Name) and node.func.id == 'len' and len(node.args) == 1:
-            return len(ev(node.args[0], env))
-        if isinstance(node.func, ast.Name) and node.func.id == 'bool' and len(node.args) == 1:
-            return bool(ev(node.args[0], env))
-        if isinstance(node.func, ast.Name) and node.func.id == 'isinstance' and len(node.args) == 2 \
-                and isinstance(node.args[1], ast.Name) and node.args[1].id in ('list', 'tuple', 'set', 'dict', 'str'):
-            return isinstance(ev(node.args[0], env), {'list': list, 'tuple': tuple, 'set': set, 'dict': dict, 'str': str}[node.args[1].id])
-        if isinstance(node.func, ast.Attribute) and node.func.attr in ('keys', 'values', 'items', 'copy') and not node.args \
-                and not node.keywords:
-            recv = ev(node.func.value, env)
+            if all(t in ('list', 'tuple', 'set', 'dict') for t in tnames):
+                return isinstance(v, tuple({'list': list, 'tuple': tuple, 'set': set, 'dict': dict}[t] for t in tnames))
+        if name in ('zip', 'enumerate', 'range') and name not in env:
+            args = [ev(a, env) for a in node.args]
+            kw = {k.arg: ev(k.value, env) for k in node.keywords}
+            try:
+                if name == 'zip' and not kw:
+                    return list(zip(*args))
+                if name == 'enumerate' and set(kw) <= {'start'}:
+                    return list(enumerate(*args, **kw))
+                if name == 'range' and not kw:
+                    return list(range(*args))
+            except TypeError:
+                pass
+            raise Unsupported(name)
+        if isinstance(f, ast.Attribute) and f.attr in ('keys', 'values', 'items') and not node.args and not node.keywords:
+            recv = ev(f.value, env)
             if isinstance(recv, dict):
-                return {'keys': lambda: list(recv.keys()), 'values': lambda: list(recv.values()),
-                        'items': lambda: list(recv.items()), 'copy': lambda: dict(recv)}[node.func.attr]()
-            if isinstance(recv, list) and node.func.attr == 'copy':
+                return list(getattr(recv, f.attr)())
+            raise Unsupported('method %s' % f.attr)
+        if isinstance(f, ast.Attribute) and f.attr in SET_METHODS and not node.keywords:
+            recv = ev(f.value, env)
+            if isinstance(recv, dict) and f.attr == 'copy' and not node.args:
+                return dict(recv)
+            if isinstance(recv, list) and f.attr == 'copy' and not node.args:
                 return list(recv)
-            if not isinstance(recv, (set, frozenset)):
-                raise Unsupported('method %s' % node.func.attr)
-        if isinstance(node.func, ast.Attribute) and node.func.attr in SET_METHODS and not node.keywords:
-            recv = ev(node.func.value, env)
             if not isinstance(recv, (set, frozenset)):
                 raise Unsupported('set method on a non-set')
             args = [ev(a, env) for a in node.args]
             try:
-                return getattr(set(recv), node.func.attr)(*args)
+                return getattr(set(recv), f.attr)(*args)
             except TypeError:
                 raise Unsupported('set method arguments')
         raise Unsupported('call %s' % ast.unparse(node)[:40])
@@ -283,104 +207,14 @@ def ev(node, env):
                     gen(i + 1, e2)
         gen(0, env)
         return set(out) if isinstance(node, ast.SetComp) else out
-    if isinstance(node, ast.Lambda):
-        a = node.args
-        if a.vararg or a.kwarg or a.kwonlyargs or a.posonlyargs or a.defaults:
-            raise Unsupported('lambda signature')
-        names = [x.arg for x in a.args]
-
-        def fn(*vals):
-            if len(vals) != len(names):
-                raise Unsupported('lambda arity')
-            e2 = dict(env)
-            e2.update(zip(names, vals))
-            return ev(node.body, e2)
-        return fn
-    if isinstance(node, ast.JoinedStr):
-        out = []
-        for part in node.values:
-            if isinstance(part, ast.Constant):
-                out.append(str(part.value))
-            elif isinstance(part, ast.FormattedValue):
-                v = ev(part.value, env)
-                if part.conversion == 114:
-                    v = repr(v)
-                elif part.conversion == 115:
-                    v = str(v)
-                elif part.conversion == 97:
-                    v = ascii(v)
-                spec = ev(part.format_spec, env) if part.format_spec is not None else ''
-                try:
-                    out.append(format(v, spec))
-                except (TypeError, ValueError) as e:
-                    raise ModelRaise(cls=type(e).__name__)
-            else:
-                raise Unsupported('f-string part')
-        return ''.join(out)
     if isinstance(node, ast.IfExp):
         return ev(node.body, env) if ev(node.test, env) else ev(node.orelse, env)
     raise Unsupported(type(node).__name__)
 
 
-def _call_args(node, env):
-    args, kw = [], {}
-    for a in node.args:
-        if isinstance(a, ast.Starred):
-            args.extend(list(ev(a.value, env)))
-        else:
-            args.append(ev(a, env))
-    for k in node.keywords:
-        if k.arg is None:
-            d = ev(k.value, env)
-            if not isinstance(d, dict):
-                raise Unsupported('** of a non-dict')
-            kw.update(d)
-        else:
-            kw[k.arg] = ev(k.value, env)
-    return args, kw
-
-
-def _apply(fn, args, kw, inner):
-    a = fn.args
-    if a.vararg or a.kwonlyargs or a.posonlyargs:
-        raise Unsupported('signature of %s' % fn.name)
-    names = [x.arg for x in a.args]
-    defaults = dict(zip(names[len(names) - len(a.defaults):], a.defaults))
-    kw = dict(kw)
-    if len(args) > len(names):
-        raise Unsupported('too many arguments for %s' % fn.name)
-    for i, n in enumerate(names):
-        if i < len(args):
-            inner[n] = args[i]
-        elif n in kw:
-            inner[n] = kw.pop(n)
-        elif n in defaults:
-            inner[n] = ev(defaults[n], inner)
-        else:
-            raise Unsupported('missing argument %s' % n)
-    if a.kwarg:
-        inner[a.kwarg.arg] = kw
-    elif kw:
-        raise Unsupported('unexpected keyword arguments')
-    if names and '__self__' in inner and inner.get('__selfobj__') is not None and inner[names[0]] is inner['__selfobj__']:
-        inner['__self__'] = names[0]
-    return call(fn, inner)[1]
-
-
 def _bind(target, value, env):
     if isinstance(target, ast.Name):
         env[target.id] = value
-    elif isinstance(target, ast.Subscript):
-        key = ast.unparse(target)
-        base = ev(target.value, env)
-        idx_ = ev(target.slice, env)
-        if isinstance(base, (dict, list)):
-            try:
-                base[idx_] = value
-            except (IndexError, TypeError):
-                raise Unsupported('subscript store')
-        else:
-            raise Unsupported('subscript store on %s' % type(base).__name__)
     elif isinstance(target, (ast.Tuple, ast.List)) and all(isinstance(e, ast.Name) for e in target.elts):
         vals = list(value)
         if len(vals) != len(target.elts):
@@ -391,98 +225,10 @@ def _bind(target, value, env):
         raise Unsupported('assignment target')
 
 
-class ModelRaise(Exception):
-    """An exception raised while interpreting on the model: by a `raise` statement (stmt set) or by a modelled
-    builtin (e.g. float('abc') -> ValueError)."""
-
-    def __init__(self, stmt=None, cls=None):
-        Exception.__init__(self, 'raise')
-        self.stmt = stmt
-        if cls is None and stmt is not None and stmt.exc is not None:
-            e = stmt.exc.func if isinstance(stmt.exc, ast.Call) else stmt.exc
-            cls = e.attr if isinstance(e, ast.Attribute) else (e.id if isinstance(e, ast.Name) else None)
-        self.cls = cls
-
-
-BUILTIN_EXC = {'ValueError', 'TypeError', 'KeyError', 'IndexError', 'ZeroDivisionError', 'OverflowError', 'AttributeError'}
-STR_METHODS = {'strip', 'lstrip', 'rstrip', 'endswith', 'startswith', 'lower', 'upper', 'replace', 'format', 'split', 'join'}
-
-
-def _handler_matches(h, exc):
-    if h.type is None:
-        return True
-    names = [ast.unparse(t).split('.')[-1] for t in (h.type.elts if isinstance(h.type, ast.Tuple) else [h.type])]
-    return exc.cls in names or 'Exception' in names or 'BaseException' in names
-
-
-class _Break(Exception):
-    pass
-
-
-class _Continue(Exception):
-    pass
-
-
-class _Return(Exception):
-    def __init__(self, value, stmt):
-        Exception.__init__(self, 'return')
-        self.value = value
-        self.stmt = stmt
-
-
-def call(fn_node, env):
-    """Run a function body on model values: ('return', value, stmt) | ('fall', None, None); ModelRaise propagates."""
-    try:
-        run(fn_node.body, env)
-    except _Return as r:
-        return 'return', r.value, r.stmt
-    return 'fall', None, None
-
-
 def run(stmts, env):
-    """Execute a straight-line/loop fragment on model values (the checker's own interpretation)."""
+    """The few straight-line statements that BUILD a set/list of names (x = [...], x += [...], for v in S: if c: x.append(v)),
+    evaluated over a symbolic universe.  Anything else is Unsupported."""
     for s in stmts:
-        if isinstance(s, ast.Return):
-            raise _Return(ev(s.value, env) if s.value is not None else None, s)
-        if isinstance(s, ast.Raise):
-            if s.exc is None and env.get('__exc__') is not None:
-                raise env['__exc__']
-            raise ModelRaise(s)
-        if isinstance(s, ast.Try) and not s.finalbody:
-            try:
-                run(s.body, env)
-            except ModelRaise as exc:
-                hs = [h for h in s.handlers if _handler_matches(h, exc)]
-                if not hs:
-                    raise
-                saved = env.get('__exc__')
-                env['__exc__'] = exc
-                if hs[0].name:
-                    env[hs[0].name] = exc
-                try:
-                    run(hs[0].body, env)
-                finally:
-                    env['__exc__'] = saved
-            else:
-                run(s.orelse, env)
-            continue
-        if isinstance(s, ast.FunctionDef):
-            def closure(*args, _fn=s, _env=env, **kw):
-                return _apply(_fn, list(args), kw, dict(_env))
-            env[s.name] = closure
-            continue
-        if isinstance(s, ast.Break):
-            raise _Break()
-        if isinstance(s, ast.Continue):
-            raise _Continue()
-        if isinstance(s, ast.AugAssign) and isinstance(s.target, ast.Name) and isinstance(s.op, (ast.Add, ast.Sub)):
-            cur = ev(s.target, env)
-            if isinstance(cur, (int, float)) and not isinstance(cur, bool):
-                val = ev(s.value, env)
-                if not (isinstance(val, (int, float)) and not isinstance(val, bool)):
-                    raise Unsupported('augmented assignment')
-                env[s.target.id] = cur + val if isinstance(s.op, ast.Add) else cur - val
-                continue
         if isinstance(s, ast.Pass) or (isinstance(s, ast.Expr) and isinstance(s.value, ast.Constant)):
             continue
         if isinstance(s, ast.Assign) and len(s.targets) == 1:
@@ -491,7 +237,7 @@ def run(stmts, env):
             cur = ev(s.target, env)
             val = ev(s.value, env)
             if isinstance(cur, list) and isinstance(s.op, ast.Add):
-                cur.extend(list(val))           # in place, like list +=
+                cur.extend(list(val))
             elif isinstance(cur, set) and isinstance(s.op, ast.BitOr):
                 cur |= set(val)
             else:
@@ -501,26 +247,19 @@ def run(stmts, env):
         elif isinstance(s, ast.For) and not s.orelse:
             for item in list(ev(s.iter, env)):
                 _bind(s.target, item, env)
-                try:
-                    run(s.body, env)
-                except _Break:
-                    break
-                except _Continue:
-                    continue
+                run(s.body, env)
         elif isinstance(s, ast.Expr) and isinstance(s.value, ast.Call) and isinstance(s.value.func, ast.Attribute) \
-                and s.value.func.attr in ('append', 'extend', 'add', 'update', 'insert') and not s.value.keywords:
+                and s.value.func.attr in ('append', 'extend', 'add', 'update') and not s.value.keywords and len(s.value.args) == 1:
             recv = ev(s.value.func.value, env)
-            args = [ev(a, env) for a in s.value.args]
-            if isinstance(recv, list) and s.value.func.attr == 'append' and len(args) == 1:
-                recv.append(args[0])
-            elif isinstance(recv, list) and s.value.func.attr == 'extend' and len(args) == 1:
-                recv.extend(list(args[0]))
-            elif isinstance(recv, list) and s.value.func.attr == 'insert' and len(args) == 2:
-                recv.insert(args[0], args[1])
-            elif isinstance(recv, set) and s.value.func.attr == 'add' and len(args) == 1:
-                recv.add(args[0])
-            elif isinstance(recv, set) and s.value.func.attr == 'update' and len(args) == 1:
-                recv.update(args[0])
+            arg = ev(s.value.args[0], env)
+            if isinstance(recv, list) and s.value.func.attr == 'append':
+                recv.append(arg)
+            elif isinstance(recv, list) and s.value.func.attr == 'extend':
+                recv.extend(list(arg))
+            elif isinstance(recv, set) and s.value.func.attr == 'add':
+                recv.add(arg)
+            elif isinstance(recv, set) and s.value.func.attr == 'update':
+                recv.update(arg)
             else:
                 raise Unsupported('call %s' % ast.unparse(s.value)[:40])
         else:
